@@ -104,7 +104,12 @@ public:
   }
 
   void add_task(std::function<void()> &&task) {
-    queue.add_task(task);
+    {
+      // the state the workers' wait predicate reads must change under the
+      // mutex they wait with, otherwise the wake-up below can be lost
+      std::lock_guard lg(shared_mutex);
+      queue.add_task(task);
+    }
     queue_cv.notify_all();
   }
 
@@ -114,8 +119,11 @@ public:
   }
 
   void stop_all_workers() {
-    for (auto &w : workers)
-      w->stop();
+    {
+      std::lock_guard lg(shared_mutex);
+      for (auto &w : workers)
+        w->stop();
+    }
     queue_cv.notify_all();
   }
 
